@@ -344,7 +344,6 @@ package core
 
 //@ func NewVersionedSignedProposal
 //@ props C14 C10
-//@ requires proposal != nil
 //@ ensures r1 == nil ==> wfProposalPtr(proposal)
 //@ canary r1 != nil
 
@@ -361,7 +360,6 @@ package core
 
 //@ func NewVersionedSignedValidatorRegistration
 //@ props C14
-//@ requires registration != nil
 //@ ensures r1 == nil ==> registration.Version == eth2spec.BuilderVersionV1 && registration.V1 != nil
 
 //@ func (r *VersionedSignedValidatorRegistration) UnmarshalJSON
